@@ -285,3 +285,88 @@ def conditions(body, bb):
 def bool_origin_calls(body, place):
     """call origins of a bool place (e.g. the `eq` call behind `if a == b`)"""
     return [o for o in origins(body, place, transparent=()) if o.kind == "call"]
+
+
+# ------------------------------------------------------------------------------------------
+# conditions across one call level, and what a short-circuit bool implies
+
+
+def resolve_copy(body, local, limit=8):
+    """follow `tmp = copy/move x` (single definition, bare locals) back to the variable it copies"""
+    from .core import op_place
+
+    for _ in range(limit):
+        if 1 <= local <= body.n_args or body.local_name(local) is not None:
+            return local
+        ds = body.defs.get(local, [])
+        if len(ds) != 1 or ds[0].si is None or ds[0].node["k"] != "assign" or ds[0].node["rv"]["k"] != "use":
+            return local
+        q = op_place(ds[0].node["rv"]["ops"][0])
+        if q is None or q["p"]:
+            return local
+        local = q["l"]
+    return local
+
+
+def translated_conditions(prog, caller, call_site, callee, bb):
+    """branch facts holding at block `bb` of `callee` when it is called from `call_site` of `caller`:
+    the callee's conditions on its own parameters re-expressed on the caller's locals (the argument
+    operands, copies resolved), followed by the caller's conditions at the call site.  Conditions
+    of the callee on values it computes itself are dropped (they cannot be expressed in the caller)."""
+    from .core import op_place
+
+    out = []
+    args = call_site.node["args"]
+    for c in conditions(callee, bb):
+        l = resolve_copy(callee, c.place["l"]) if not c.place["p"] else c.place["l"]
+        if not (1 <= l <= callee.n_args) or l - 1 >= len(args):
+            continue
+        q = op_place(args[l - 1])
+        if q is None:
+            continue
+        base = resolve_copy(caller, q["l"]) if not q["p"] else q["l"]
+        place = {"l": base, "p": (list(q["p"]) if q["p"] and base == q["l"] else []) + list(c.place["p"])}
+        out.append(Cond(c.switch, place, c.is_discr, c.values, c.negated))
+    return out + conditions(caller, call_site.bb)
+
+
+def truth_implies(body, local, depth=0, _seen=None):
+    """named bool variables that are certainly true whenever the bool in `local` is true
+    (through the lowering of `a && b`, copies and branch-dependent constant assignments);
+    None when the local can never be true"""
+    from .core import op_place, op_const
+
+    if _seen is None:
+        _seen = set()
+    if depth > 8 or local in _seen:
+        return set()
+    _seen = _seen | {local}
+    if body.local_name(local) is not None or 1 <= local <= body.n_args:
+        return {local}
+    res = None
+    for d in body.defs.get(local, []):
+        here = set()
+        for c in conditions(body, d.bb):
+            if not c.is_discr and not c.place["p"] and body.local_ty(c.place["l"]) == "bool" and c.is_true():
+                t = truth_implies(body, c.place["l"], depth + 1, _seen)
+                if t:
+                    here |= t
+        if d.si is not None and d.node["k"] == "assign" and d.node["rv"]["k"] == "use":
+            k = op_const(d.node["rv"]["ops"][0])
+            if k is not None and "bool" in k:
+                if k["bool"] is False:
+                    continue
+                cur = here
+            else:
+                q = op_place(d.node["rv"]["ops"][0])
+                if q is not None and not q["p"]:
+                    t = truth_implies(body, q["l"], depth + 1, _seen)
+                    if t is None:
+                        continue
+                    cur = here | t
+                else:
+                    cur = here
+        else:
+            cur = here
+        res = cur if res is None else (res & cur)
+    return res
